@@ -822,3 +822,315 @@ Section Raft.
     intros b Hb. rewrite Forall_forall in H1. exact (H1 b Hb).
   Qed.
 End Raft.
+
+(** * Replayed entries of executed blocks are never handed over again (trace-level consequence
+    of contiguity: it holds for the implementation's trace as soon as [contiguous] does) *)
+Definition sh_wf (sh : shadow) : Prop :=
+  contig_from (sh_chain sh) (sh_queue sh) /\ sh_cur sh = sh_chain sh + N.of_nat (length (sh_queue sh)).
+
+Lemma above_executed_b_spec ops : forall sh tr, above_executed_b sh ops tr = true <-> above_executed sh ops tr.
+Proof.
+  induction ops as [|op ops IH]; intros sh tr; cbn [above_executed_b above_executed]; [tauto|].
+  destruct tr as [|o tr]; [tauto|].
+  rewrite andb_true_iff, IH, forallb_forall, Forall_forall.
+  split; intros [H1 H2]; (split; [|exact H2]); intros x Hx; apply N.ltb_lt; apply H1; exact Hx.
+Qed.
+
+Lemma sh_wf_step sh op o :
+  sh_wf sh -> contig_from (match op with OCrash => sh_chain sh | _ => sh_cur sh end) (b_ev o) ->
+  sh_wf (shadow_step sh op o).
+Proof.
+  intros [H1 H2] Hc.
+  assert (Hdef : sh_wf {| sh_cur := sh_cur sh + N.of_nat (length (b_ev o)); sh_chain := sh_chain sh;
+                          sh_queue := sh_queue sh ++ b_ev o |} \/ op = OCrash).
+  { destruct op; try (right; reflexivity); left; unfold sh_wf; cbn; rewrite app_length;
+      (split; [apply contig_from_app; [exact H1|rewrite <- H2; exact Hc] | lia]). }
+  destruct op; cbn [shadow_step]; try (destruct Hdef as [Hd|Hd]; [exact Hd|discriminate]).
+  - (* OExec *)
+    destruct (sh_queue sh) as [|b q] eqn:Eq; [unfold sh_wf; rewrite Eq; split; assumption|].
+    unfold sh_wf. cbn. cbn [contig_from] in H1. destruct H1 as [Hb Hq]. cbn [length] in H2.
+    split; [rewrite Hb; exact Hq|lia].
+  - (* OCrash *)
+    unfold sh_wf. cbn. split; [exact I|lia].
+Qed.
+
+Lemma contiguous_above ops : forall sh tr, sh_wf sh -> contiguous sh ops tr -> above_executed sh ops tr.
+Proof.
+  induction ops as [|op ops IH]; intros sh tr Hwf Hc; cbn [above_executed]; [exact I|].
+  destruct tr as [|o tr]; [exact I|]. cbn [contiguous] in Hc. destruct Hc as [Hc1 Hc2].
+  split.
+  - apply Forall_forall. intros b Hb.
+    pose proof (contig_from_gt _ _ Hc1 b Hb) as Hgt. destruct Hwf as [_ Hcur]. destruct op; lia.
+  - apply IH; [apply sh_wf_step; assumption | exact Hc2].
+Qed.
+
+Lemma sh_wf_init init : sh_wf (shadow_init init).
+Proof. unfold sh_wf, shadow_init. cbn. split; [exact I|lia]. Qed.
+
+Theorem above_executed_all d c lg ops tr :
+  rrun d c lg (init_sys d c) ops = Some tr -> above_executed (shadow_init (c_init c)) ops tr.
+Proof. intro H. apply contiguous_above; [apply sh_wf_init | eapply contiguous_all; exact H]. Qed.
+
+(** * Replicas applying the same log *)
+Theorem same_content d c1 c2 lg ops1 ops2 tr1 tr2 :
+  c_init c1 = c_init c2 -> safe d c1 lg -> d_snap_unexecuted d = false ->
+  rrun d c1 lg (init_sys d c1) ops1 = Some tr1 -> rrun d c2 lg (init_sys d c2) ops2 = Some tr2 ->
+  forall a b, In a (all_events tr1) -> In b (all_events tr2) -> fst a = fst b -> a = b.
+Proof.
+  intros Hi Hs Hn H1 H2 a b Ha Hb Hab.
+  assert (Hs2 : safe d c2 lg) by (unfold safe in *; rewrite <- Hi; exact Hs).
+  pose proof (canonical_all d c1 lg ops1 tr1 Hs Hn H1) as C1.
+  pose proof (canonical_all d c2 lg ops2 tr2 Hs2 Hn H2) as C2.
+  unfold canonical in *. rewrite Forall_forall in C1, C2. rewrite <- Hi in C2.
+  eapply canon_functional; [apply C1; exact Ha | apply C2; exact Hb | exact Hab].
+Qed.
+
+(** * A transaction in at most one delivered block — under the hypothesis that the batches in the log
+    are pairwise disjoint and duplicate-free *)
+Lemma canon_from_sub l : forall cc i b, In b (map snd (canon_from cc i l)) -> In b (log_blocks l).
+Proof.
+  induction l as [|e t IH]; intros cc i b Hin; cbn [canon_from log_blocks] in *; [exact Hin|].
+  destruct e as [|h txs]; [eapply IH; exact Hin|].
+  destruct (h =? cc + 1).
+  - cbn [map snd In] in Hin. destruct Hin as [<-|Hin]; [left; reflexivity | right; eapply IH; exact Hin].
+  - right. eapply IH. exact Hin.
+Qed.
+
+Lemma log_disjoint_pair l : log_tx_disjoint_l l -> forall a b, In a l -> In b l -> a <> b ->
+  forall x, In x (snd a) -> ~ In x (snd b).
+Proof.
+  induction l as [|y t IH]; intros Hd a b Ha Hb Hne x Hxa Hxb; [destruct Ha|].
+  cbn [log_tx_disjoint_l] in Hd. destruct Hd as [_ [Hy Ht]]. rewrite Forall_forall in Hy.
+  destruct Ha as [->|Ha], Hb as [->|Hb].
+  - contradiction.
+  - exact (Hy b Hb x Hxa Hxb).
+  - exact (Hy a Ha x Hxb Hxa).
+  - exact (IH Ht a b Ha Hb Hne x Hxa Hxb).
+Qed.
+
+Lemma log_disjoint_nodup l : log_tx_disjoint_l l -> forall a, In a l -> NoDup (snd a).
+Proof.
+  induction l as [|y t IH]; intros Hd a Ha; [destruct Ha|].
+  cbn [log_tx_disjoint_l] in Hd. destruct Hd as [Hn [_ Ht]].
+  destruct Ha as [->|Ha]; [exact Hn | exact (IH Ht a Ha)].
+Qed.
+
+Theorem tx_once_of_canonical init lg tr :
+  log_tx_disjoint lg -> canonical init lg tr -> tx_once tr.
+Proof.
+  intros Hd Hc. unfold tx_once, canonical in *. induction (all_events tr) as [|b t IH]; cbn [tx_once_l]; [exact I|].
+  inversion Hc as [|? ? Hb Ht]; subst.
+  assert (Hbl : In b (log_blocks lg)) by (eapply canon_from_sub; exact Hb).
+  split; [eapply log_disjoint_nodup; [exact Hd|exact Hbl]|]. split; [|apply IH; exact Ht].
+  apply Forall_forall. intros b' Hb'. rewrite Forall_forall in Ht. specialize (Ht b' Hb').
+  unfold blk_compat. destruct (N.eq_dec (fst b) (fst b')) as [E|E]; [left; exact E|right].
+  apply (log_disjoint_pair _ Hd b b' Hbl); [eapply canon_from_sub; exact Ht|]. intro Heq. subst. contradiction.
+Qed.
+
+(** * Each log entry is handed over at most once per incarnation (ghost indices) *)
+Fixpoint increasing_after (a : N) (l : list N) : Prop :=
+  match l with [] => True | x :: t => a < x /\ increasing_after x t end.
+
+Lemma increasing_after_weaken l : forall a a', a' <= a -> increasing_after a l -> increasing_after a' l.
+Proof. destruct l as [|x t]; intros a a' Hle H; cbn in *; [exact I|]. destruct H; split; [lia|assumption]. Qed.
+
+Section Once.
+  Variable c : rcfg.
+  Variable lg : rlog.
+
+  Lemma publish1_once m idx e m' evs : publish1 c m (idx, e) = (m', evs) ->
+    applied m' = idx /\ (evs = [] \/ exists b, evs = [(idx, b)])
+    /\ justElected m' = justElected m /\ leader m' = leader m /\ snapIdx m' = snapIdx m.
+  Proof.
+    unfold publish1. destruct e as [|h txs].
+    - intro H; inversion H; subst; cbn; auto 6.
+    - destruct (idx <=? bai_top (bai m)); [intro H; inversion H; subst; cbn; auto 6|].
+      destruct (negb (h =? lastExec m + 1)); intro H; inversion H; subst; cbn; [auto 6|].
+      split; [reflexivity|]. split; [right; eexists; reflexivity|auto].
+  Qed.
+
+  Lemma publish_once es : forall m m' evs,
+    consec lg (applied m + 1) es -> publish c m es = (m', evs) ->
+    increasing_after (applied m) (map fst evs) /\ applied m <= applied m'
+    /\ Forall (fun i => i <= applied m') (map fst evs)
+    /\ justElected m' = justElected m /\ leader m' = leader m /\ snapIdx m' = snapIdx m.
+  Proof.
+    induction es as [|[i e] t IH]; intros m m' evs Hc Hp; cbn [publish] in Hp.
+    - inversion Hp; subst. cbn. repeat split; try constructor; lia.
+    - cbn [consec] in Hc. destruct Hc as [Hi [_ Ht]].
+      destruct (publish1 c m (i, e)) as [m1 o1] eqn:E1. destruct (publish c m1 t) as [m2 o2] eqn:E2.
+      inversion Hp; subst m' evs. clear Hp.
+      destruct (publish1_once _ _ _ _ _ E1) as [Hap [Hev [Hj [Hl Hs]]]].
+      assert (Ht' : consec lg (applied m1 + 1) t) by (rewrite Hap, Hi; exact Ht).
+      destruct (IH _ _ _ Ht' E2) as [Hinc [Hle [Hall [Hj2 [Hl2 Hs2]]]]].
+      rewrite Hap in Hinc, Hle.
+      split; [|split; [lia|split; [|repeat split; congruence]]].
+      + destruct Hev as [->|[b ->]]; cbn [app map fst increasing_after].
+        * eapply increasing_after_weaken; [|exact Hinc]. lia.
+        * split; [lia|exact Hinc].
+      + destruct Hev as [->|[b ->]]; cbn [app map fst]; [exact Hall|]. constructor; [lia|exact Hall].
+  Qed.
+End Once.
+
+Theorem ready_entry_once d c lg s lo hi app lead s' o :
+  rstep d c lg s (OReady lo hi app lead) = Some (s', o) ->
+  increasing_after (applied (mem s)) (map fst (o_ev o))
+  /\ Forall (fun i => i <= applied (mem s')) (map fst (o_ev o))
+  /\ applied (mem s) <= applied (mem s').
+Proof.
+  cbn [rstep]. destruct ((1 <=? lo) && (lo <=? applied (mem s) + 1) && (hi <=? app) && (app <=? avail s)
+                && (stored (disk s) <=? app) && (lo <=? hi + 1)) eqn:Eg; [|discriminate].
+  assert (Hlo : lo <= applied (mem s) + 1) by (rewrite !andb_true_iff in Eg; lia).
+  destruct (leader_change_frame c (mem s) lead) as [_ [Hf2 _]].
+  set (m0 := leader_change c (mem s) lead) in *.
+  destruct (publish c m0 (entries_to_apply m0 lo (seg lg lo (N.to_nat (hi + 1 - lo))))) as [m1 evs] eqn:Ep.
+  intro H. inversion H; subst s' o. clear H. cbn [o_ev mem].
+  assert (Hcons : consec lg (applied m0 + 1) (entries_to_apply m0 lo (seg lg lo (N.to_nat (hi + 1 - lo))))).
+  { apply entries_to_apply_consec; [rewrite Hf2; exact Hlo | apply seg_consec]. }
+  destruct (publish_once c lg _ _ _ _ Hcons Ep) as [Hinc [Hle [Hall _]]].
+  destruct (after_elected_frame m1 app) as [_ [Hg2 _]].
+  rewrite Hf2 in Hinc, Hle.
+  assert (Hap : applied (if (c_snap c <=? applied (after_elected m1 app) - snapIdx (after_elected m1 app)) &&
+                            snap_guard d (after_elected m1 app) (ex s)
+                         then {| lastExec := lastExec (after_elected m1 app); applied := applied (after_elected m1 app);
+                                 snapIdx := applied (after_elected m1 app); bai := bai (after_elected m1 app);
+                                 justElected := justElected (after_elected m1 app); leader := leader (after_elected m1 app);
+                                 seqNo := seqNo (after_elected m1 app) |}
+                         else after_elected m1 app) = applied m1).
+  { destruct ((c_snap c <=? applied (after_elected m1 app) - snapIdx (after_elected m1 app)) &&
+              snap_guard d (after_elected m1 app) (ex s)); cbn; exact Hg2. }
+  rewrite Hap. split; [exact Hinc|]. split; [exact Hall|exact Hle].
+Qed.
+
+(** within an incarnation the applied index never goes back *)
+Theorem applied_mono d c lg s op s' o :
+  rstep d c lg s op = Some (s', o) -> op <> OCrash -> applied (mem s) <= applied (mem s').
+Proof.
+  intros Hst Hne. destruct op; try contradiction.
+  - cbn [rstep] in Hst. destruct (avail s <? N.of_nat (length lg)); [|discriminate]. inversion Hst; subst. cbn. lia.
+  - destruct (ready_entry_once _ _ _ _ _ _ _ _ _ _ Hst) as [_ [_ H]]. exact H.
+  - cbn [rstep] in Hst. destruct (queue (ex s)) as [|[i [h t]] q]; inversion Hst; subst; cbn; lia.
+  - cbn [rstep] in Hst. destruct (h <=? chain (ex s)); [|discriminate].
+    destruct (alookup N.eqb h (bai (mem s))); inversion Hst; subst; cbn; lia.
+  - cbn [rstep] in Hst. destruct (leader (mem s) =? c_id c); [inversion Hst; subst; cbn; lia|].
+    destruct (k =? 0); [|discriminate]. inversion Hst; subst. lia.
+  - cbn [rstep] in Hst. inversion Hst; subst. lia.
+Qed.
+
+(** * Leader change: the Ready in which the replica learns that it is the leader resets the batch
+    sequence number to lastExec; justElected stays set exactly while stored entries are in flight *)
+Theorem new_leader_seq d c lg s lo hi app l s' o :
+  rstep d c lg s (OReady lo hi app (Some l)) = Some (s', o) ->
+  l = c_id c -> l <> leader (mem s) ->
+  seqNo (mem s') = lastExec (mem s') /\ leader (mem s') = c_id c
+  /\ justElected (mem s') = (applied (mem s') + 1 <? app).
+Proof.
+  cbn [rstep]. destruct ((1 <=? lo) && (lo <=? applied (mem s) + 1) && (hi <=? app) && (app <=? avail s)
+                && (stored (disk s) <=? app) && (lo <=? hi + 1)) eqn:Eg; [|discriminate].
+  assert (Hlo : lo <= applied (mem s) + 1) by (rewrite !andb_true_iff in Eg; lia).
+  intros H Hl Hne.
+  assert (Hm0 : justElected (leader_change c (mem s) (Some l)) = true /\ leader (leader_change c (mem s) (Some l)) = c_id c
+                /\ applied (leader_change c (mem s) (Some l)) = applied (mem s)).
+  { unfold leader_change. destruct (l =? leader (mem s)) eqn:E; [apply N.eqb_eq in E; contradiction|].
+    cbn. subst l. rewrite N.eqb_refl. auto. }
+  destruct Hm0 as [Hj0 [Hl0 Ha0]].
+  set (m0 := leader_change c (mem s) (Some l)) in *.
+  destruct (publish c m0 (entries_to_apply m0 lo (seg lg lo (N.to_nat (hi + 1 - lo))))) as [m1 evs] eqn:Ep.
+  assert (Hcons : consec lg (applied m0 + 1) (entries_to_apply m0 lo (seg lg lo (N.to_nat (hi + 1 - lo))))).
+  { apply entries_to_apply_consec; [rewrite Ha0; exact Hlo | apply seg_consec]. }
+  destruct (publish_once c lg _ _ _ _ Hcons Ep) as [_ [_ [_ [Hj1 [Hl1 _]]]]].
+  inversion H; subst s' o. clear H. cbn [mem].
+  assert (Hae : after_elected m1 app =
+                {| lastExec := lastExec m1; applied := applied m1; snapIdx := snapIdx m1; bai := bai m1;
+                   justElected := (applied m1 + 1 <? app); leader := leader m1; seqNo := lastExec m1 |}).
+  { unfold after_elected. rewrite Hj1, Hj0. reflexivity. }
+  rewrite Hae. cbn.
+  destruct ((c_snap c <=? applied m1 - snapIdx m1) && snap_guard d _ (ex s)); cbn; rewrite Hl1, Hl0; auto.
+Qed.
+
+(** * Solo *)
+Definition sshadow_ok (sh : shadow) (s : ssys) : Prop :=
+  sh_cur sh = s_last (sm s) /\ sh_chain sh = s_chain s /\ sh_queue sh = s_queue s.
+
+Lemma s_propose_ok m h txs m' ev r : s_propose m h txs = (m', ev, r) ->
+  contig_from (s_last m) ev /\ s_last m' = s_last m + N.of_nat (length ev).
+Proof.
+  unfold s_propose. destruct (s_dead m); [intro H; inversion H; subst; cbn; split; [exact I|lia]|].
+  destruct (h =? s_last m + 1) eqn:E; intro H; inversion H; subst; cbn; [|split; [exact I|lia]].
+  apply N.eqb_eq in E. split; [split; [exact E|exact I]|lia].
+Qed.
+
+Lemma sstep_shadow d sh s op s' ev r :
+  sshadow_ok sh s -> sstep d s op = (s', ev, r) ->
+  contig_from (match op with SCrash => sh_chain sh | _ => sh_cur sh end) ev
+  /\ sshadow_ok (sshadow_step sh op (sobs_of s' (Some op) ev r)) s'.
+Proof.
+  intros [H1 [H2 H3]] Hst. destruct op; cbn [sstep] in Hst.
+  - (* STx *)
+    destruct (s_stuck (sm s) || mem_N id (s_seen (sm s))).
+    + inversion Hst; subst. split; [exact I|]. unfold sshadow_ok, sshadow_step. cbn. rewrite app_nil_r. repeat split; try assumption; lia.
+    + match type of Hst with context [s_propose ?m ?h ?t] => destruct (s_propose m h t) as [[m2 ev2] r2] eqn:Ep end.
+      inversion Hst; subst. destruct (s_propose_ok _ _ _ _ _ _ Ep) as [Hc Hl]. cbn in Hc, Hl.
+      split; [rewrite H1; exact Hc|]. unfold sshadow_ok, sshadow_step. cbn. rewrite H1, H2, H3, Hl. repeat split.
+  - (* SInject *)
+    destruct (s_propose (sm s) h txs) as [[m2 ev2] r2] eqn:Ep. inversion Hst; subst.
+    destruct (s_propose_ok _ _ _ _ _ _ Ep) as [Hc Hl].
+    split; [rewrite H1; exact Hc|]. unfold sshadow_ok, sshadow_step. cbn. rewrite H1, H2, H3, Hl. repeat split.
+  - (* SExec *)
+    destruct (s_queue s) as [|b q] eqn:Eq.
+    + inversion Hst; subst. split; [exact I|]. unfold sshadow_step. rewrite H3. unfold sshadow_ok. rewrite ?Eq. repeat split; assumption.
+    + inversion Hst; subst. split; [exact I|]. unfold sshadow_step. rewrite H3. unfold sshadow_ok. cbn. repeat split. exact H1.
+  - (* SReport *)
+    destruct (s_stuck (sm s)); [inversion Hst; subst; split; [exact I|]; unfold sshadow_ok, sshadow_step; cbn; rewrite app_nil_r; repeat split; try assumption; lia|].
+    destruct (d_solo_commit10 d && negb (h mod 10 =? 0)); inversion Hst; subst; (split; [exact I|]);
+      unfold sshadow_ok, sshadow_step; cbn; rewrite app_nil_r; repeat split; try assumption; lia.
+  - (* SCrash *)
+    inversion Hst; subst. split; [exact I|]. unfold sshadow_ok, sshadow_step. cbn. repeat split; exact H2.
+Qed.
+
+Theorem solo_contiguous_all d ops : forall s sh,
+  sshadow_ok sh s -> solo_contiguous sh ops (srun d s ops).
+Proof.
+  induction ops as [|op ops IH]; intros s sh Hsh; cbn [srun solo_contiguous]; [exact I|].
+  destruct (sstep d s op) as [[s' ev] r] eqn:Es.
+  destruct (sstep_shadow d sh s op s' ev r Hsh Es) as [Hc Hsh'].
+  cbn [solo_contiguous]. split; [exact Hc|]. apply IH. exact Hsh'.
+Qed.
+
+Lemma sshadow_init_ok init : sshadow_ok (shadow_init init) (init_ssys init).
+Proof. unfold sshadow_ok, shadow_init, init_ssys. cbn. repeat split. Qed.
+
+(** with the repaired commit, every report the node takes removes the block's transactions *)
+Lemma in_remove_all xs l x : In x (remove_all xs l) -> mem_N x xs = false.
+Proof.
+  induction l as [|y t IH]; cbn [remove_all]; [intros []|].
+  destruct (mem_N y xs) eqn:E; [exact IH|]. cbn [In]. intros [<-|H]; [exact E|exact (IH H)].
+Qed.
+
+Lemma filter_none {A} (f : A -> bool) l : (forall x, In x l -> f x = false) -> filter f l = [].
+Proof.
+  induction l as [|x t IH]; intro H; cbn [filter]; [reflexivity|].
+  rewrite (H x (or_introl eq_refl)). apply IH. intros y Hy. apply H. right. exact Hy.
+Qed.
+
+Lemma count_held_remove xs held : count_held xs (remove_all xs held) = 0.
+Proof.
+  unfold count_held. rewrite filter_none; [reflexivity|].
+  intros x Hx. destruct (mem_N x (remove_all xs held)) eqn:E; [|reflexivity].
+  apply mem_N_spec in E. apply in_remove_all in E. apply mem_N_spec in Hx. congruence.
+Qed.
+
+Theorem solo_commits_all d ops : d_solo_commit10 d = false -> forall s, solo_commits ops (srun d s ops).
+Proof.
+  intro Hd. unfold solo_commits. induction ops as [|op ops IH]; intro s; cbn [srun]; [constructor|].
+  destruct (sstep d s op) as [[s' ev] r] eqn:Es. constructor; [|apply IH].
+  destruct op; cbn [sobs_of so_still]; try reflexivity.
+  cbn [sstep] in Es. destruct (s_stuck (sm s)); [inversion Es; subst; reflexivity|].
+  rewrite Hd in Es. cbn [andb] in Es. inversion Es; subst. cbn. apply count_held_remove.
+Qed.
+
+Lemma solo_commits_b_spec ops tr : solo_commits_b ops tr = true <-> solo_commits ops tr.
+Proof.
+  unfold solo_commits_b, solo_commits. rewrite forallb_forall, Forall_forall.
+  split; intros H x Hx; apply N.eqb_eq; apply H; exact Hx.
+Qed.
